@@ -1,0 +1,51 @@
+//go:build verif
+
+// Contracts for govc (see /verif/DESIGN.md). Comment-only file: with the
+// build tag off it is not part of the build, with it on it adds no code.
+
+package tinder
+
+//@ # ======================= C16: discovery peer cache =======================
+//@ pred tuOK(tu) = tu != nil && tu.notify != nil && tu.notify.L != nil && tu.peerUpdate != nil
+//@     && unlocked(addr(tu.notify.mu)) && unlocked(tu.notify.L) && tu.notify.L != addr(tu.notify.mu)
+//@ pred pcOK(c) = c != nil && c.topics != nil && c.peers != nil && unlocked(addr(c.muCache))
+//@     && (forall t Bytes {has(c.topics, t)} :: has(c.topics, t) ==> tuOK(c.topics[t])
+//@           && c.topics[t].notify.L != addr(c.muCache) && c.topics[t].notify.L != addr(c.muPeers) && addr(c.topics[t].notify.mu) != addr(c.muCache))
+
+//@ func (*peersCache).getTopicUpdate
+//@   for C16
+//@   requires pcOK(c)
+//@   modifies mapof(c.topics), lockstate(addr(c.muCache))
+//@   ensures [C16.tinder.topic] tuOK(result) && has(c.topics, topic) && c.topics[topic] == result && pcOK(c)
+//@     && result.notify.L != addr(c.muCache) && result.notify.L != addr(c.muPeers)
+//@   ensures lockstate(addr(c.muPeers)) == old(lockstate(addr(c.muPeers)))
+
+//@ extern berty.tech/weshnet/v2/pkg/tinder.mergeAddrInfos(prev, next) (r)
+//@   noeffect
+
+//@ func (*peersCache).UpdatePeer
+//@   for C16
+//@   requires pcOK(c) && unlocked(addr(c.muPeers))
+//@   at (*Notify).Broadcast requires [C16.broadcast-under-L] locked(n.L)
+//@   ensures [C16.tinder.update.unlock] unlocked(addr(c.muPeers)) && pcOK(c)
+
+//@ func (*peersCache).WaitForPeerUpdate
+//@   for C16
+//@   requires pcOK(c) && ctx != nil && current != nil
+//@   ensures [C16.tinder.wait] (ok ==> len(updated) > 0) && (!ok ==> cancelled(ctx))
+//@   ensures [C16.tinder.wait.unlock] has(c.topics, topic) && unlocked(c.topics[topic].notify.L) && unlocked(addr(c.topics[topic].notify.mu))
+//@   loop 0 invariant tuOK2(tu) && locked(tu.notify.L) && (!ok ==> cancelled(ctx)) && has(c.topics, topic) && c.topics[topic] == tu
+
+//@ pred tuOK2(tu) = tu != nil && tu.notify != nil && tu.notify.L != nil && tu.peerUpdate != nil
+//@     && unlocked(addr(tu.notify.mu)) && tu.notify.L != addr(tu.notify.mu)
+
+//@ func (PeersUpdate).HasUpdate
+//@   for C16
+//@   requires current != nil && tu != nil && tu.peerUpdate != nil
+//@   modifies mapof(current)
+//@   ensures len(result) >= 0
+
+//@ func (*peersCache).GetPeersForTopics
+//@   for C16
+//@   requires pcOK(c) && unlocked(addr(c.muPeers))
+//@   ensures [C16.tinder.getpeers.unlock] unlocked(addr(c.muPeers)) && has(c.topics, topic) && unlocked(c.topics[topic].notify.L)
